@@ -609,8 +609,8 @@ def table_layout(context, table, bottom_space, skip_stack, containing_block,
 
     # Invert columns for drawing.
     if table.style['direction'] == 'rtl':
-        column_widths.reverse()
-        column_positions.reverse()
+        table.column_widths = column_widths[::-1]
+        table.column_positions = column_positions[::-1]
 
     avoid_break = avoid_page_break(table.style['break_inside'], context)
     if resume_at and not page_is_empty and avoid_break:
